@@ -3,8 +3,11 @@
 From Coq Require Import Lia.
 From AV Require Import Base.Util Model.Prim Model.Crc Model.MsgSet Model.Responses Model.DecDSL Model.DecEmb Model.DecAst.
 
-Ltac dsl := unfold run, emb_res, emb_gen; cbn [exec then_ lift at_cur unpack_seq bind read_kind set_all set get lookup map fst snd eval eval_atom eval_atoms
-                 s_env s_rest app compare emb_res emb_gen].
+(* never unfold [exec] on a loop body that is not yet applied to a state *)
+Arguments exec param msgset data0 !p !s /.
+
+Ltac dsl := unfold run, emb_res, emb_gen; cbn [p_body p_nvars repeat exec then_ lift at_cur unpack_seq bind read_kind set_all set get lookup map fst snd eval eval_atom eval_atoms
+                 s_env s_rest app compare negb emb_res emb_gen].
 Ltac unreaders := unfold read_i8, read_u8, read_i16, read_u16, read_i32, read_u32, read_i64 in *.
 Ltac rd1 :=
   match goal with
@@ -13,6 +16,133 @@ Ltac rd1 :=
   | |- context [read_short_text ?d] => destruct (read_short_text d) as [[? ?]|?]; dsl; try reflexivity
   | |- context [read_short_bytes ?d] => destruct (read_short_bytes d) as [[[?|] ?]|?]; dsl; try reflexivity
   | |- context [read_int_string ?d] => destruct (read_int_string d) as [[[?|] ?]|?]; dsl; try reflexivity
+  end.
+
+(* ------------------------------------------------------------------ counted loops: the interpreter's loop over
+   states is the model's [for_range] over the remaining bytes.
+   [E ts ...] = the local variables as a function of the loop's temporaries [ts] (slots assigned inside the body,
+   whose values after the loop nobody reads) and of what the loop accumulates. *)
+Section Loops.
+  Variable param : Z.
+  Variable msgset : list Z -> dres.
+  Variable data0 : list Z.
+
+  (* a loop that reads one element per iteration and appends it to an accumulator *)
+  Lemma sfor_collect {A T} (body : state -> out) (rd : list Z -> res (A * list Z)) (E : T -> list A -> env) (step : T -> A -> T) :
+    (forall ts acc d, body (mk_state (E ts acc) d) =
+        match rd d with
+        | Ok (a, d') => ([], Next (mk_state (E (step ts a) (acc ++ [a])) d'))
+        | Err e => ([], Raise e)
+        end) ->
+    forall fuel n ts acc d,
+      sfor_range body fuel n (mk_state (E ts acc) d) =
+      match for_range (one rd) fuel n d with
+      | (xs, Ok d') => ([], Next (mk_state (E (fold_left step xs ts) (acc ++ xs)) d'))
+      | (_, Err e) => ([], Raise e)
+      end.
+  Proof.
+    intros Hb. induction fuel as [|f IH]; intros n ts acc d.
+    - cbn [sfor_range for_range]. destruct (n <=? 0); [cbn; now rewrite app_nil_r|reflexivity].
+    - cbn [sfor_range for_range]. destruct (n <=? 0); [cbn; now rewrite app_nil_r|].
+      rewrite Hb. replace (one rd d) with (match rd d with Ok (a, rest) => ([a], Ok rest) | Err e => @gfail A e end) by reflexivity.
+      destruct (rd d) as [[a d']|e]; [|reflexivity].
+      cbn [then_]. rewrite IH. destruct (for_range (one rd) f (n - 1) d') as [xs [d''|e]]; cbn [app fold_left].
+      + now rewrite <- app_assoc.
+      + reflexivity.
+  Qed.
+
+  (* the same when the temporaries after an iteration are not a function of the element read *)
+  Lemma sfor_collect_ex {A T} (body : state -> out) (rd : list Z -> res (A * list Z)) (E : T -> list A -> env) :
+    (forall ts acc d, exists ts',
+        body (mk_state (E ts acc) d) =
+        match rd d with
+        | Ok (a, d') => ([], Next (mk_state (E ts' (acc ++ [a])) d'))
+        | Err e => ([], Raise e)
+        end) ->
+    forall fuel n ts acc d, exists ts',
+      sfor_range body fuel n (mk_state (E ts acc) d) =
+      match for_range (one rd) fuel n d with
+      | (xs, Ok d') => ([], Next (mk_state (E ts' (acc ++ xs)) d'))
+      | (_, Err e) => ([], Raise e)
+      end.
+  Proof.
+    intros Hb. induction fuel as [|f IH]; intros n ts acc d.
+    - exists ts. cbn [sfor_range for_range]. destruct (n <=? 0); [cbn; now rewrite app_nil_r|reflexivity].
+    - cbn [sfor_range for_range]. destruct (n <=? 0); [exists ts; cbn; now rewrite app_nil_r|].
+      destruct (Hb ts acc d) as [ts1 H1]. rewrite H1.
+      replace (one rd d) with (match rd d with Ok (a, rest) => ([a], Ok rest) | Err e => @gfail A e end) by reflexivity.
+      destruct (rd d) as [[a d']|e]; [|exists ts; reflexivity].
+      cbn [then_]. destruct (IH (n - 1) ts1 (acc ++ [a]) d') as [ts2 H2]. exists ts2. rewrite H2.
+      destruct (for_range (one rd) f (n - 1) d') as [xs [d''|e]]; cbn [app].
+      + now rewrite <- app_assoc.
+      + reflexivity.
+  Qed.
+
+  (* a loop whose body yields: the items are the model's items, in order; an exception comes after them *)
+  Lemma sfor_yield {B T} (body : state -> out) (part : list Z -> gen B) (emb : B -> val) (E : T -> env) :
+    (forall ts d, exists ts',
+        body (mk_state (E ts) d) =
+        (map emb (fst (part d)), match snd (part d) with Ok d' => Next (mk_state (E ts') d') | Err e => Raise e end)) ->
+    forall fuel n ts d, exists ts',
+      sfor_range body fuel n (mk_state (E ts) d) =
+      (map emb (fst (for_range part fuel n d)),
+       match snd (for_range part fuel n d) with Ok d' => Next (mk_state (E ts') d') | Err e => Raise e end).
+  Proof.
+    intros Hb. induction fuel as [|f IH]; intros n ts d.
+    - exists ts. cbn [sfor_range for_range]. destruct (n <=? 0); reflexivity.
+    - cbn [sfor_range for_range]. destruct (n <=? 0); [exists ts; reflexivity|].
+      destruct (Hb ts d) as [ts1 H1]. rewrite H1. destruct (part d) as [ys [d'|e]]; cbn [fst snd then_].
+      + destruct (IH (n - 1) ts1 d') as [ts2 H2]. exists ts2. rewrite H2.
+        destruct (for_range part f (n - 1) d') as [zs o]. cbn [fst snd]. now rewrite map_app.
+      + exists ts. reflexivity.
+  Qed.
+End Loops.
+
+(* Python's dict update on embedded keys/values is the model's [dict_set] *)
+Lemma dict_put_map {K V} (eqb : K -> K -> bool) (ek : K -> val) (ev : V -> val) :
+  (forall a b, key_eqb (ek a) (ek b) = eqb a b) ->
+  forall d k v, dict_put (map (fun kv => (ek (fst kv), ev (snd kv))) d) (ek k) (ev v)
+                = map (fun kv => (ek (fst kv), ev (snd kv))) (dict_set eqb d k v).
+Proof.
+  intros H. unfold dict_put. induction d as [|[k' v'] d IH]; intros k v; [reflexivity|].
+  cbn [map dict_set fst snd]. rewrite H. destruct (eqb k' k); [reflexivity|]. cbn [map fst snd]. now rewrite IH.
+Qed.
+
+Lemma dict_of_snoc {K V} (eqb : K -> K -> bool) (l : list (K * V)) k v :
+  dict_of eqb (l ++ [(k, v)]) = dict_set eqb (dict_of eqb l) k v.
+Proof. unfold dict_of. now rewrite fold_left_app. Qed.
+
+(* rewrite the loop in the goal with [sfor_collect], starting from the empty accumulator and temporaries [ts] *)
+Ltac collect rd E step ts :=
+  match goal with
+  | |- context [sfor_range ?b ?f ?n (mk_state _ ?d)] =>
+      let HC := fresh "HC" in
+      pose proof (fun Hb => sfor_collect b rd E step Hb f n ts [] d) as HC;
+      cbv beta in HC; cbn [map app fst snd dict_of fold_left] in HC; rewrite HC; clear HC
+  end.
+
+(* rewrite the loop in the goal with [sfor_yield]; the first goal left is the characterisation of the loop body *)
+Ltac yield_loop part emb E ts0 :=
+  match goal with
+  | |- context [sfor_range ?b ?ff ?nn (mk_state _ ?dd)] =>
+      let H := fresh "HY" in
+      let ts' := fresh "ts'" in
+      destruct (sfor_yield b part emb E) with (fuel := ff) (n := nn) (ts := ts0) (d := dd) as [ts' H];
+      [ | cbn [fst snd] in H; rewrite H; clear H ]
+  end.
+Ltac collect_ex rd E ts0 :=
+  match goal with
+  | |- context [sfor_range ?b ?ff ?nn (mk_state _ ?dd)] =>
+      let HC := fresh "HC" in
+      let ts' := fresh "ts'" in
+      pose proof (fun Hb => sfor_collect_ex b rd E Hb ff nn ts0 nil dd) as HC; cbv beta in HC;
+      destruct HC as [ts' HC];
+      [ | cbn [map app fst snd dict_of fold_left] in HC; rewrite HC; clear HC ]
+  end.
+Ltac finish_loop :=
+  unfold loop;
+  match goal with
+  | |- context [for_range ?p ?f ?n ?d] => destruct (for_range p f n d) as [? [?|?]]; cbn [fst snd then_ app]; rewrite ?app_nil_r
   end.
 
 Section Sound.
@@ -44,4 +174,424 @@ Qed.
     run 0 msgset data ast_decode_consumermetadata_response = emb_res v_coordinator (decode_consumermetadata_response data).
   Proof. unfold ast_decode_consumermetadata_response, decode_consumermetadata_response. unreaders. dsl. repeat rd1.
 Qed.
+
+  (* ---------------------------------------------------------------- OffsetCommit: topics / partitions, one item each *)
+  Lemma sound_offset_commit data :
+    run 0 msgset data ast_decode_offset_commit_response = emb_gen v_commit (decode_offset_commit_response data).
+  Proof.
+    unfold ast_decode_offset_commit_response, decode_offset_commit_response, topics_after_header. unreaders. dsl.
+    destruct (unpack Fi data) as [[c r1]|e]; dsl; [|reflexivity].
+    destruct (unpack Fi r1) as [[nt r2]|e]; dsl; [|reflexivity].
+    (* inner loop, for a topic t *)
+    assert (Hin : forall t np (ts : val * val) d, exists ts',
+               exec 0 msgset data (SSeq (SUnpack CCur [Fi; Fh] [5; 6]%nat) (SYield (ECtor K_OffsetCommitResponse [AVar 3; AVar 5; AVar 6])))
+                    (mk_state [VInt c; VInt nt; VUnbound; VText t; VInt np; fst ts; snd ts] d)
+               = (map v_commit (fst (commit_part t d)),
+                  match snd (commit_part t d) with
+                  | Ok d' => Next (mk_state [VInt c; VInt nt; VUnbound; VText t; VInt np; fst ts'; snd ts'] d')
+                  | Err e => Raise e end)).
+    { intros t np ts d. unfold commit_part. unreaders. dsl.
+      destruct (unpack Fi d) as [[p d1]|e]; dsl; [|exists ts; reflexivity].
+      destruct (unpack Fh d1) as [[er d2]|e]; dsl; [|exists ts; reflexivity].
+      exists (VInt p, VInt er). reflexivity. }
+    (* outer loop *)
+    assert (Hout : forall (ts : val * val * val * val) d, exists ts',
+               exec 0 msgset data
+                    (SSeq (SRead CCur RShortAscii 3) (SSeq (SUnpack CCur [Fi] [4%nat])
+                       (SFor 4 (SSeq (SUnpack CCur [Fi; Fh] [5; 6]%nat) (SYield (ECtor K_OffsetCommitResponse [AVar 3; AVar 5; AVar 6]))))))
+                    (mk_state [VInt c; VInt nt; VUnbound; fst (fst (fst ts)); snd (fst (fst ts)); snd (fst ts); snd ts] d)
+               = (map v_commit (fst (by_topic commit_part d)),
+                  match snd (by_topic commit_part d) with
+                  | Ok d' => Next (mk_state [VInt c; VInt nt; VUnbound; fst (fst (fst ts')); snd (fst (fst ts')); snd (fst ts'); snd ts'] d')
+                  | Err e => Raise e end)).
+    { intros [[[t0 np0] p0] e0] d. unfold by_topic. unreaders. dsl.
+      destruct (read_short_ascii d) as [[t d1]|e]; dsl; [|exists (t0, np0, p0, e0); reflexivity].
+      destruct (unpack Fi d1) as [[np d2]|e]; dsl; [|exists (t0, np0, p0, e0); reflexivity].
+      destruct (sfor_yield _ (commit_part t) v_commit
+                  (fun ts : val * val => [VInt c; VInt nt; VUnbound; VText t; VInt np; fst ts; snd ts]) (Hin t np)
+                  (S (length d2)) np (p0, e0) d2) as [[p' e'] H].
+      cbn [fst snd] in H. rewrite H. unfold loop.
+      destruct (for_range (commit_part t) (S (length d2)) np d2) as [ys [d'|e]]; cbn [fst snd then_].
+      - exists (VText t, VInt np, p', e'). reflexivity.
+      - exists (t0, np0, p0, e0). reflexivity. }
+    destruct (sfor_yield _ (by_topic commit_part) v_commit
+                (fun ts : val * val * val * val => [VInt c; VInt nt; VUnbound; fst (fst (fst ts)); snd (fst (fst ts)); snd (fst ts); snd ts]) Hout
+                (S (length r2)) nt (VUnbound, VUnbound, VUnbound, VUnbound) r2) as [ts' H].
+    cbn [fst snd] in H. rewrite H. unfold loop.
+    destruct (for_range (by_topic commit_part) (S (length r2)) nt r2) as [ys [d'|e]]; reflexivity.
+  Qed.
+
+  (* ---------------------------------------------------------------- JoinGroup protocol metadata: a list of strings *)
+  Lemma sound_subscription data :
+    run 0 msgset data ast_decode_join_group_protocol_metadata = emb_res v_subscription (decode_join_group_protocol_metadata data).
+  Proof.
+    unfold ast_decode_join_group_protocol_metadata, decode_join_group_protocol_metadata. unreaders. dsl.
+    destruct (unpack Fh data) as [[v r1]|e]; dsl; [|reflexivity].
+    destruct (unpack Fi r1) as [[n r2]|e]; dsl; [|reflexivity].
+    collect read_short_text
+            (fun (ts : val) (acc : list (list Z)) => [VInt v; VInt n; VList (map VText acc); VUnbound; ts; VUnbound])
+            (fun (_ : val) (a : list Z) => VText a) VUnbound.
+    2:{ intros ts acc d. dsl. destruct (read_short_text d) as [[a d']|e]; dsl; [|reflexivity]. now rewrite map_app. }
+    unfold read_n, loop.
+    destruct (for_range (one read_short_text) (S (length r2)) n r2) as [xs [r3|e]]; dsl; [|reflexivity].
+    destruct (read_int_string r3) as [[[u|] r4]|e]; dsl; reflexivity.
+  Qed.
+
+  (* ---------------------------------------------------------------- JoinGroup response: a list of members *)
+  Lemma sound_join data :
+    run 0 msgset data ast_decode_join_group_response = emb_res v_join (decode_join_group_response data).
+  Proof.
+    unfold ast_decode_join_group_response, decode_join_group_response. unreaders. dsl.
+    destruct (unpack Fi data) as [[c r1]|e]; dsl; [|reflexivity].
+    destruct (unpack Fh r1) as [[er r2]|e]; dsl; [|reflexivity].
+    destruct (unpack Fi r2) as [[g r3]|e]; dsl; [|reflexivity].
+    destruct (read_short_text r3) as [[pr r4]|e]; dsl; [|reflexivity].
+    destruct (read_short_text r4) as [[ld r5]|e]; dsl; [|reflexivity].
+    destruct (read_short_text r5) as [[me r6]|e]; dsl; [|reflexivity].
+    destruct (unpack Fi r6) as [[n r7]|e]; dsl; [|reflexivity].
+    collect read_join_member
+            (fun (ts : val * val) (acc : list join_member) =>
+               [VInt c; VInt er; VInt g; VText pr; VText ld; VText me; VInt n; VList (map v_member acc); VUnbound; fst ts; snd ts])
+            (fun (_ : val * val) (m : join_member) => (VText (jmb_id m), v_ob (jmb_metadata m))) (VUnbound, VUnbound).
+    2:{ intros ts acc d. unfold read_join_member. dsl.
+        destruct (read_short_text d) as [[a d1]|e]; dsl; [|reflexivity].
+        destruct (read_int_string d1) as [[[b|] d2]|e]; dsl; try reflexivity; now rewrite map_app. }
+    unfold read_n, loop.
+    destruct (for_range (one read_join_member) (S (length r7)) n r7) as [xs [r8|e]]; dsl; reflexivity.
+  Qed.
+
+  (* ---------------------------------------------------------------- SyncGroup member assignment: a dict by topic *)
+  Lemma sound_assignment data :
+    run 0 msgset data ast_decode_sync_group_member_assignment = emb_res v_assignment (decode_sync_group_member_assignment data).
+  Proof.
+    unfold ast_decode_sync_group_member_assignment, decode_sync_group_member_assignment. unreaders. dsl.
+    destruct (unpack Fh data) as [[v r1]|e]; dsl; [|reflexivity].
+    destruct (unpack Fi r1) as [[n r2]|e]; dsl; [|reflexivity].
+    destruct (v =? 0) eqn:V0; dsl; [|reflexivity].
+    match goal with
+    | |- context [sfor_range ?b ?ff ?nn (mk_state _ ?dd)] =>
+        destruct (sfor_collect_ex b read_assigned
+                    (fun (ts : val * val * val) (acc : list (list Z * list Z)) =>
+                       [VInt v; VInt n; VDict (map (fun tp => (VText (fst tp), v_ints (snd tp))) (dict_of zlist_eqb acc));
+                        VUnbound; fst (fst ts); snd (fst ts); snd ts; VUnbound])) with (fuel := ff) (n := nn) (ts := (VUnbound, VUnbound, VUnbound))
+                    (acc := @nil (list Z * list Z)) (d := dd) as [ts' HC]
+    end.
+    { intros ts acc d. unfold read_assigned. unreaders. dsl.
+      destruct (read_short_ascii d) as [[t d1]|e]; dsl; [|exists ts; reflexivity].
+      destruct (unpack Fi d1) as [[np d2]|e]; dsl; [|exists ts; reflexivity].
+      destruct (read_ints np d2) as [[ps d3]|e]; dsl; [|exists ts; reflexivity].
+      exists (VText t, VInt np, v_ints ps). cbn [fst snd]. rewrite dict_of_snoc.
+      change (VTuple (map VInt ps)) with (v_ints ps).
+      now rewrite (dict_put_map zlist_eqb VText v_ints (fun a b => eq_refl) (dict_of zlist_eqb acc) t ps). }
+    cbn [map app fst snd dict_of fold_left] in HC. rewrite HC. clear HC.
+    unfold read_n, loop.
+    destruct (for_range (one read_assigned) (S (length r2)) n r2) as [xs [r3|e]]; dsl; [|reflexivity].
+    destruct (read_int_string r3) as [[[u|] r4]|e]; dsl; reflexivity.
+  Qed.
+
+  (* ---------------------------------------------------------------- OffsetFetch *)
+  Lemma sound_offset_fetch data :
+    run 0 msgset data ast_decode_offset_fetch_response = emb_gen v_ofetch (decode_offset_fetch_response data).
+  Proof.
+    unfold ast_decode_offset_fetch_response, decode_offset_fetch_response, topics_after_header. unreaders. dsl.
+    destruct (unpack Fi data) as [[c r1]|e]; dsl; [|reflexivity].
+    destruct (unpack Fi r1) as [[nt r2]|e]; dsl; [|reflexivity].
+    yield_loop (by_topic ofetch_part) v_ofetch
+               (fun '(t, np, p, o, m, er) => [VInt c; VInt nt; VUnbound; t; np; p; o; m; er])
+               (VUnbound, VUnbound, VUnbound, VUnbound, VUnbound, VUnbound).
+    { intros [[[[[t0 np0] p0] o0] m0] e0] d. unfold by_topic. unreaders. dsl.
+      destruct (read_short_ascii d) as [[t d1]|e]; dsl; [|exists (t0, np0, p0, o0, m0, e0); reflexivity].
+      destruct (unpack Fi d1) as [[np d2]|e]; dsl; [|exists (t0, np0, p0, o0, m0, e0); reflexivity].
+      yield_loop (ofetch_part t) v_ofetch
+                 (fun '(p, o, m, er) => [VInt c; VInt nt; VUnbound; VText t; VInt np; p; o; m; er]) (p0, o0, m0, e0).
+      { intros [[[p1 o1] m1] e1] d'. unfold ofetch_part. unreaders. dsl.
+        destruct (unpack Fi d') as [[p d3]|e]; dsl; [|exists (p1, o1, m1, e1); reflexivity].
+        destruct (unpack Fq d3) as [[o d4]|e]; dsl; [|exists (p1, o1, m1, e1); reflexivity].
+        destruct (read_short_bytes d4) as [[md d5]|e]; dsl; [|exists (p1, o1, m1, e1); reflexivity].
+        destruct (unpack Fh d5) as [[er d6]|e]; dsl; [|exists (p1, o1, m1, e1); destruct md; reflexivity].
+        exists (VInt p, VInt o, v_ob md, VInt er). destruct md; reflexivity. }
+      destruct ts' as [[[p' o'] m'] e']. finish_loop.
+      - exists (VText t, VInt np, p', o', m', e'). reflexivity.
+      - exists (t0, np0, p0, o0, m0, e0). reflexivity. }
+    finish_loop; reflexivity.
+  Qed.
+
+  (* ---------------------------------------------------------------- Produce: the two nested generators and the dispatch *)
+  Lemma sound_produce_v0 data :
+    run 0 msgset data ast_decode_produce_response__v0 = emb_gen v_produce (decode_produce_v0 data).
+  Proof.
+    unfold ast_decode_produce_response__v0, decode_produce_v0, topics_after_header. unreaders. dsl.
+    destruct (unpack Fi data) as [[c r1]|e]; dsl; [|reflexivity].
+    destruct (unpack Fi r1) as [[nt r2]|e]; dsl; [|reflexivity].
+    yield_loop (by_topic produce_part_v0) v_produce
+               (fun '(t, np, p, er, o) => [VInt c; VInt nt; VUnbound; t; np; p; er; o])
+               (VUnbound, VUnbound, VUnbound, VUnbound, VUnbound).
+    { intros [[[[t0 np0] p0] e0] o0] d. unfold by_topic. unreaders. dsl.
+      destruct (read_short_ascii d) as [[t d1]|e]; dsl; [|exists (t0, np0, p0, e0, o0); reflexivity].
+      destruct (unpack Fi d1) as [[np d2]|e]; dsl; [|exists (t0, np0, p0, e0, o0); reflexivity].
+      yield_loop (produce_part_v0 t) v_produce
+                 (fun '(p, er, o) => [VInt c; VInt nt; VUnbound; VText t; VInt np; p; er; o]) (p0, e0, o0).
+      { intros [[p1 e1] o1] d'. unfold produce_part_v0. unreaders. dsl.
+        destruct (unpack Fi d') as [[p d3]|e]; dsl; [|exists (p1, e1, o1); reflexivity].
+        destruct (unpack Fh d3) as [[er d4]|e]; dsl; [|exists (p1, e1, o1); reflexivity].
+        destruct (unpack Fq d4) as [[o d5]|e]; dsl; [|exists (p1, e1, o1); reflexivity].
+        exists (VInt p, VInt er, VInt o). reflexivity. }
+      destruct ts' as [[p' e'] o']. finish_loop.
+      - exists (VText t, VInt np, p', e', o'). reflexivity.
+      - exists (t0, np0, p0, e0, o0). reflexivity. }
+    finish_loop; reflexivity.
+  Qed.
+
+  Lemma sound_produce_v2 data :
+    run 0 msgset data ast_decode_produce_response__v2 = emb_gen v_produce (decode_produce_v2 data).
+  Proof.
+    unfold ast_decode_produce_response__v2, decode_produce_v2, topics_after_header. unreaders. dsl.
+    destruct (unpack Fi data) as [[c r1]|e]; dsl; [|reflexivity].
+    destruct (unpack Fi r1) as [[nt r2]|e]; dsl; [|reflexivity].
+    yield_loop (by_topic produce_part_v2) v_produce
+               (fun '(t, np, p, er, o, l) => [VInt c; VInt nt; VUnbound; t; np; p; er; o; l; VUnbound])
+               (VUnbound, VUnbound, VUnbound, VUnbound, VUnbound, VUnbound).
+    { intros [[[[[t0 np0] p0] e0] o0] l0] d. unfold by_topic. unreaders. dsl.
+      destruct (read_short_ascii d) as [[t d1]|e]; dsl; [|exists (t0, np0, p0, e0, o0, l0); reflexivity].
+      destruct (unpack Fi d1) as [[np d2]|e]; dsl; [|exists (t0, np0, p0, e0, o0, l0); reflexivity].
+      yield_loop (produce_part_v2 t) v_produce
+                 (fun '(p, er, o, l) => [VInt c; VInt nt; VUnbound; VText t; VInt np; p; er; o; l; VUnbound]) (p0, e0, o0, l0).
+      { intros [[[p1 e1] o1] l1] d'. unfold produce_part_v2. unreaders. dsl.
+        destruct (unpack Fi d') as [[p d3]|e]; dsl; [|exists (p1, e1, o1, l1); reflexivity].
+        destruct (unpack Fh d3) as [[er d4]|e]; dsl; [|exists (p1, e1, o1, l1); reflexivity].
+        destruct (unpack Fq d4) as [[o d5]|e]; dsl; [|exists (p1, e1, o1, l1); reflexivity].
+        destruct (unpack Fq d5) as [[l d6]|e]; dsl; [|exists (p1, e1, o1, l1); reflexivity].
+        exists (VInt p, VInt er, VInt o, VInt l). reflexivity. }
+      destruct ts' as [[[p' e'] o'] l']. finish_loop.
+      - exists (VText t, VInt np, p', e', o', l'). reflexivity.
+      - exists (t0, np0, p0, e0, o0, l0). reflexivity. }
+    destruct ts' as [[[[[t' np'] p'] e'] o'] l'].
+    finish_loop; [|reflexivity]. dsl.
+    match goal with |- context [unpack Fi ?d] => destruct (unpack Fi d) as [[th d']|e]; dsl; rewrite ?app_nil_r; reflexivity end.
+  Qed.
+
+  (* the dispatch: which nested generator a given api_version selects (None = ValueError at call time) *)
+  Lemma sound_produce_dispatch ver data :
+    decode_produce_response ver data
+    = match select ast_decode_produce_response__dispatch ver with
+      | Some 0%nat => Some (decode_produce_v0 data)
+      | Some 1%nat => Some (decode_produce_v2 data)
+      | _ => None
+      end.
+  Proof.
+    unfold decode_produce_response, ast_decode_produce_response__dispatch. cbn [select compare].
+    destruct (ver =? 0); [reflexivity|]. destruct (1 <=? ver); reflexivity.
+  Qed.
+
+  (* ---------------------------------------------------------------- ListOffsets: a list of offsets per partition *)
+  Lemma sound_offsets data :
+    run 0 msgset data ast_decode_offset_response = emb_gen v_offset (decode_offset_response data).
+  Proof.
+    unfold ast_decode_offset_response, decode_offset_response, topics_after_header. unreaders. dsl.
+    destruct (unpack Fi data) as [[c r1]|e]; dsl; [|reflexivity].
+    destruct (unpack Fi r1) as [[nt r2]|e]; dsl; [|reflexivity].
+    yield_loop (by_topic offset_part) v_offset
+               (fun '(t, np, p, er, n, l, o) => [VInt c; VInt nt; VUnbound; t; np; p; er; n; l; o])
+               (VUnbound, VUnbound, VUnbound, VUnbound, VUnbound, VUnbound, VUnbound).
+    { intros [[[[[[t0 np0] p0] e0] n0] l0] o0] d. unfold by_topic. unreaders. dsl.
+      destruct (read_short_ascii d) as [[t d1]|e]; dsl; [|exists (t0, np0, p0, e0, n0, l0, o0); reflexivity].
+      destruct (unpack Fi d1) as [[np d2]|e]; dsl; [|exists (t0, np0, p0, e0, n0, l0, o0); reflexivity].
+      yield_loop (offset_part t) v_offset
+                 (fun '(p, er, n, l, o) => [VInt c; VInt nt; VUnbound; VText t; VInt np; p; er; n; l; o]) (p0, e0, n0, l0, o0).
+      { intros [[[[p1 e1] n1] l1] o1] d'. unfold offset_part. unreaders. dsl.
+        destruct (unpack Fi d') as [[p d3]|e]; dsl; [|exists (p1, e1, n1, l1, o1); reflexivity].
+        destruct (unpack Fh d3) as [[er d4]|e]; dsl; [|exists (p1, e1, n1, l1, o1); reflexivity].
+        destruct (unpack Fi d4) as [[n d5]|e]; dsl; [|exists (p1, e1, n1, l1, o1); reflexivity].
+        collect (unpack Fq)
+                (fun (ts : val) (acc : list Z) => [VInt c; VInt nt; VUnbound; VText t; VInt np; VInt p; VInt er; VInt n; VList (map VInt acc); ts])
+                (fun (_ : val) (a : Z) => VInt a) o1.
+        2:{ intros ts acc d6. dsl. destruct (unpack Fq d6) as [[a d7]|e]; dsl; [|reflexivity]. now rewrite map_app. }
+        unfold read_n, loop.
+        destruct (for_range (one (unpack Fq)) (S (length d5)) n d5) as [xs [d6|e]]; dsl.
+        - exists (VInt p, VInt er, VInt n, VList (map VInt xs), fold_left (fun (_ : val) (a : Z) => VInt a) xs o1). reflexivity.
+        - exists (p1, e1, n1, l1, o1). reflexivity. }
+      destruct ts' as [[[[p' e'] n'] l'] o']. finish_loop.
+      - exists (VText t, VInt np, p', e', n', l', o'). reflexivity.
+      - exists (t0, np0, p0, e0, n0, l0, o0). reflexivity. }
+    finish_loop; reflexivity.
+  Qed.
+
+  (* ---------------------------------------------------------------- ApiVersions: struct.iter_unpack over the rest *)
+  Lemma sound_api_versions data :
+    run 0 msgset data ast_decode_api_versions_response = emb_res v_api_versions (decode_api_versions_response data).
+  Proof.
+    unfold ast_decode_api_versions_response, decode_api_versions_response. unreaders. dsl.
+    destruct (unpack Fi data) as [[c r1]|e]; dsl; [|reflexivity].
+    destruct (unpack Fh r1) as [[er r2]|e]; dsl; [|reflexivity].
+    destruct (unpack Fi r2) as [[cnt r3]|e]; dsl; [|reflexivity].
+    change (fmt_bytes [Fh; Fh; Fh]) with 6.
+    destruct (negb (len r3 mod 6 =? 0)); [reflexivity|].
+    assert (H : forall fuel d (ts : val * val * val) acc, exists ts',
+               siter [Fh; Fh; Fh] [4; 5; 6]%nat (exec 0 msgset data (SAppend 3 (ECtor K_ApiVersion [AVar 4; AVar 5; AVar 6]))) fuel d
+                     (mk_state [VInt c; VInt er; VInt cnt; VList (map v_api_version acc); fst (fst ts); snd (fst ts); snd ts] r3)
+               = match iter_unpack read_api_version fuel d with
+                 | Ok vs => ([], Next (mk_state [VInt c; VInt er; VInt cnt; VList (map v_api_version (acc ++ vs));
+                                                  fst (fst ts'); snd (fst ts'); snd ts'] r3))
+                 | Err e => ([], Raise e)
+                 end).
+    { induction fuel as [|f IH]; intros d ts acc.
+      - exists ts. destruct d; cbn [siter iter_unpack]; [now rewrite app_nil_r|reflexivity].
+      - destruct d as [|b d]; [exists ts; cbn [siter iter_unpack]; now rewrite app_nil_r|].
+        cbn [siter iter_unpack].
+        replace (read_api_version (b :: d)) with (do (k, q1) <- unpack Fh (b :: d); do (mn, q2) <- unpack Fh q1; do (mx, q3) <- unpack Fh q2;
+                                                  Ok (mk_api_version k mn mx, q3)) by reflexivity. dsl.
+        destruct (unpack Fh (b :: d)) as [[k d1]|e]; dsl; [|exists ts; reflexivity].
+        destruct (unpack Fh d1) as [[mn d2]|e]; dsl; [|exists ts; reflexivity].
+        destruct (unpack Fh d2) as [[mx d3]|e]; dsl; [|exists ts; reflexivity].
+        destruct (IH d3 (VInt k, VInt mn, VInt mx) (acc ++ [mk_api_version k mn mx])) as [ts' H']. exists ts'.
+        cbn [fst snd] in H'. rewrite map_app in H'. cbn [map] in H'. unfold v_api_version at 2 in H'. cbn [av_key av_min av_max] in H'.
+        rewrite H'. destruct (iter_unpack read_api_version f d3) as [vs|e]; dsl; [|reflexivity].
+        now rewrite <- app_assoc. }
+    destruct (H (length r3) r3 (VUnbound, VUnbound, VUnbound) []) as [ts' H']. cbn [map fst snd app] in H'. rewrite H'.
+    destruct (iter_unpack read_api_version (length r3) r3) as [vs|e]; dsl; reflexivity.
+  Qed.
+
+  (* ---------------------------------------------------------------- Metadata: three dicts, MAX_BROKERS guard *)
+  Definition kv_broker (kb : Z * broker_metadata) : val * val := (VInt (fst kb), v_broker (snd kb)).
+  Definition kv_part (kp : Z * partition_metadata) : val * val := (VInt (fst kp), v_partition (snd kp)).
+  Definition kv_topic (kt : list Z * topic_metadata) : val * val := (VText (fst kt), v_topic (snd kt)).
+  Definition d_brokers (acc : list broker_metadata) : val :=
+    VDict (map kv_broker (dict_of Z.eqb (map (fun b => (bm_node b, b)) acc))).
+  Definition d_parts (acc : list partition_metadata) : val :=
+    VDict (map kv_part (dict_of Z.eqb (map (fun pm => (pm_partition pm, pm)) acc))).
+  Definition d_topics (acc : list topic_metadata) : val :=
+    VDict (map kv_topic (dict_of zlist_eqb (map (fun t => (tm_topic t, t)) acc))).
+
+  Lemma d_brokers_snoc acc b :
+    VDict (dict_put (map kv_broker (dict_of Z.eqb (map (fun b => (bm_node b, b)) acc))) (VInt (bm_node b)) (v_broker b)) = d_brokers (acc ++ [b]).
+  Proof.
+    unfold d_brokers. rewrite map_app. cbn [map]. rewrite dict_of_snoc.
+    now rewrite <- (dict_put_map Z.eqb VInt v_broker (fun a b => eq_refl)).
+  Qed.
+  Lemma d_parts_snoc acc pm :
+    VDict (dict_put (map kv_part (dict_of Z.eqb (map (fun pm => (pm_partition pm, pm)) acc))) (VInt (pm_partition pm)) (v_partition pm)) = d_parts (acc ++ [pm]).
+  Proof.
+    unfold d_parts. rewrite map_app. cbn [map]. rewrite dict_of_snoc.
+    now rewrite <- (dict_put_map Z.eqb VInt v_partition (fun a b => eq_refl)).
+  Qed.
+  Lemma d_topics_snoc acc t :
+    VDict (dict_put (map kv_topic (dict_of zlist_eqb (map (fun t => (tm_topic t, t)) acc))) (VText (tm_topic t)) (v_topic t)) = d_topics (acc ++ [t]).
+  Proof.
+    unfold d_topics. rewrite map_app. cbn [map]. rewrite dict_of_snoc.
+    now rewrite <- (dict_put_map zlist_eqb VText v_topic (fun a b => eq_refl)).
+  Qed.
+
+  Lemma sound_metadata data :
+    run 0 msgset data ast_decode_metadata_response = emb_res v_metadata (decode_metadata_response data).
+  Proof.
+    unfold ast_decode_metadata_response, decode_metadata_response. unreaders. dsl.
+    destruct (unpack Fi data) as [[c r1]|e]; dsl; [|reflexivity].
+    destruct (unpack Fi r1) as [[nb r2]|e]; dsl; [|reflexivity].
+    unfold MAX_BROKERS. destruct (1024 <? nb); dsl; [reflexivity|].
+    (* brokers *)
+    change (VDict []) with (d_brokers []).
+    collect_ex read_broker
+               (fun '(b4, b5, b6) (acc : list broker_metadata) =>
+                  [VInt c; VInt nb; d_brokers acc; VUnbound; b4; b5; b6; VUnbound; VUnbound; VUnbound; VUnbound; VUnbound; VUnbound; VUnbound;
+                   VUnbound; VUnbound; VUnbound; VUnbound; VUnbound; VUnbound; VUnbound])
+               (VUnbound, VUnbound, VUnbound).
+    { intros [[b4 b5] b6] acc d. unfold read_broker. unreaders. dsl.
+      destruct (unpack Fi d) as [[node d1]|e]; dsl; [|exists (b4, b5, b6); reflexivity].
+      destruct (read_short_ascii d1) as [[host d2]|e]; dsl; [|exists (b4, b5, b6); reflexivity].
+      destruct (unpack Fi d2) as [[port d3]|e]; dsl; [|exists (b4, b5, b6); reflexivity].
+      exists (VInt node, VText host, VInt port). unfold d_brokers at 1.
+      change (VStruct K_BrokerMetadata [VInt node; VText host; VInt port]) with (v_broker (mk_broker_metadata node host port)).
+      change (VInt node) with (VInt (bm_node (mk_broker_metadata node host port))) at 1.
+      now rewrite d_brokers_snoc. }
+    destruct ts' as [[b4 b5] b6]. unfold read_n at 1, loop.
+    destruct (for_range (one read_broker) (S (length r2)) nb r2) as [bs [r3|e]]; dsl; [|reflexivity].
+    destruct (unpack Fi r3) as [[nt r4]|e]; dsl; [|reflexivity].
+    (* topics *)
+    change (VDict []) with (d_topics []).
+    collect_ex read_topic_metadata
+               (fun '(t9, t10, t11, t12, t14, t15, t16, t17, t18, t19, t20) (acc : list topic_metadata) =>
+                  [VInt c; VInt nb; d_brokers bs; VUnbound; b4; b5; b6; VInt nt; d_topics acc; t9; t10; t11; t12; VUnbound;
+                   t14; t15; t16; t17; t18; t19; t20])
+               (VUnbound, VUnbound, VUnbound, VUnbound, VUnbound, VUnbound, VUnbound, VUnbound, VUnbound, VUnbound, VUnbound).
+    { intros [[[[[[[[[[t9 t10] t11] t12] t14] t15] t16] t17] t18] t19] t20] acc d. unfold read_topic_metadata. unreaders. dsl.
+      destruct (unpack Fh d) as [[terr d1]|e]; dsl; [|exists (t9, t10, t11, t12, t14, t15, t16, t17, t18, t19, t20); reflexivity].
+      destruct (read_short_ascii d1) as [[name d2]|e]; dsl; [|exists (t9, t10, t11, t12, t14, t15, t16, t17, t18, t19, t20); reflexivity].
+      destruct (unpack Fi d2) as [[np d3]|e]; dsl; [|exists (t9, t10, t11, t12, t14, t15, t16, t17, t18, t19, t20); reflexivity].
+      change (VDict []) with (d_parts []).
+      collect_ex (read_partition_metadata name)
+                 (fun '(p14, p15, p16, p17, p18, p19, p20) (pacc : list partition_metadata) =>
+                    [VInt c; VInt nb; d_brokers bs; VUnbound; b4; b5; b6; VInt nt; d_topics acc; VInt terr; VText name; VInt np; d_parts pacc;
+                     VUnbound; p14; p15; p16; p17; p18; p19; p20])
+                 (t14, t15, t16, t17, t18, t19, t20).
+      { intros [[[[[[p14 p15] p16] p17] p18] p19] p20] pacc d'. unfold read_partition_metadata. unreaders. dsl.
+        destruct (unpack Fh d') as [[perr q1]|e]; dsl; [|exists (p14, p15, p16, p17, p18, p19, p20); reflexivity].
+        destruct (unpack Fi q1) as [[pid q2]|e]; dsl; [|exists (p14, p15, p16, p17, p18, p19, p20); reflexivity].
+        destruct (unpack Fi q2) as [[leader q3]|e]; dsl; [|exists (p14, p15, p16, p17, p18, p19, p20); reflexivity].
+        destruct (unpack Fi q3) as [[nrep q4]|e]; dsl; [|exists (p14, p15, p16, p17, p18, p19, p20); reflexivity].
+        destruct (read_ints nrep q4) as [[reps q5]|e]; dsl; [|exists (p14, p15, p16, p17, p18, p19, p20); reflexivity].
+        destruct (unpack Fi q5) as [[nisr q6]|e]; dsl; [|exists (p14, p15, p16, p17, p18, p19, p20); reflexivity].
+        destruct (read_ints nisr q6) as [[isr q7]|e]; dsl; [|exists (p14, p15, p16, p17, p18, p19, p20); reflexivity].
+        exists (VInt perr, VInt pid, VInt leader, VInt nrep, v_ints reps, VInt nisr, v_ints isr). unfold d_parts at 1.
+        change (VStruct K_PartitionMetadata [VText name; VInt pid; VInt perr; VInt leader; VTuple (map VInt reps); VTuple (map VInt isr)])
+          with (v_partition (mk_partition_metadata name pid perr leader reps isr)).
+        change (VInt pid) with (VInt (pm_partition (mk_partition_metadata name pid perr leader reps isr))) at 1.
+        now rewrite d_parts_snoc. }
+      destruct ts' as [[[[[[p14 p15] p16] p17] p18] p19] p20]. unfold read_n, loop.
+      destruct (for_range (one (read_partition_metadata name)) (S (length d3)) np d3) as [pms [d4|e]]; dsl.
+      - exists (VInt terr, VText name, VInt np, d_parts pms, p14, p15, p16, p17, p18, p19, p20). unfold d_topics at 1.
+        change (VStruct K_TopicMetadata [VText name; VInt terr; d_parts pms])
+          with (v_topic (mk_topic_metadata name terr (dict_of Z.eqb (map (fun pm => (pm_partition pm, pm)) pms)))).
+        change (VText name) with (VText (tm_topic (mk_topic_metadata name terr (dict_of Z.eqb (map (fun pm => (pm_partition pm, pm)) pms))))) at 1.
+        now rewrite d_topics_snoc.
+      - exists (t9, t10, t11, t12, t14, t15, t16, t17, t18, t19, t20). reflexivity. }
+    destruct ts' as [[[[[[[[[[t9 t10] t11] t12] t14] t15] t16] t17] t18] t19] t20]. unfold read_n, loop.
+    destruct (for_range (one read_topic_metadata) (S (length r4)) nt r4) as [tms [r5|e]]; dsl; reflexivity.
+  Qed.
 End Sound.
+
+(* ---------------------------------------------------------------- Fetch: api_version selects the header layout; the
+   record set of every partition goes to _decode_message_set_iter (here: [dec_set depth orc]) *)
+Lemma sound_fetch depth orc ver data :
+  run ver (dec_set depth orc) data ast_decode_fetch_response = emb_gen v_fetch (decode_fetch_response ver depth orc data).
+Proof.
+  set (msgset := dec_set depth orc).
+  assert (Hloops : forall c nt th r2,
+    (let (ys, f) := exec ver msgset data
+        (SFor 1 (SSeq (SRead CCur RShortAscii 4) (SSeq (SUnpack CCur [Fi] [5%nat]) (SFor 5 (SSeq (SUnpack CCur [Fi; Fh; Fq] [6; 7; 8]%nat)
+           (SSeq (SRead CCur RIntString 9) (SYield (ECtor K_FetchResponse [AVar 4; AVar 6; AVar 7; AVar 8; AMsgSetIter 9]))))))))
+        (mk_state [VInt c; VInt nt; th; VUnbound; VUnbound; VUnbound; VUnbound; VUnbound; VUnbound; VUnbound] r2) in
+     match f with Next _ => (ys, Ok VNone) | Ret v => (ys, Ok v) | Raise e => (ys, Err e) end)
+    = emb_gen v_fetch (loop (by_topic (fetch_part depth orc)) nt r2)).
+  { intros c nt th r2. dsl.
+    yield_loop (by_topic (fetch_part depth orc)) v_fetch
+               (fun '(t, np, p, er, h, ms) => [VInt c; VInt nt; th; VUnbound; t; np; p; er; h; ms])
+               (VUnbound, VUnbound, VUnbound, VUnbound, VUnbound, VUnbound).
+    { intros [[[[[t0 np0] p0] e0] h0] m0] d. unfold by_topic. unreaders. dsl.
+      destruct (read_short_ascii d) as [[t d1]|e]; dsl; [|exists (t0, np0, p0, e0, h0, m0); reflexivity].
+      destruct (unpack Fi d1) as [[np d2]|e]; dsl; [|exists (t0, np0, p0, e0, h0, m0); reflexivity].
+      yield_loop (fetch_part depth orc t) v_fetch
+                 (fun '(p, er, h, ms) => [VInt c; VInt nt; th; VUnbound; VText t; VInt np; p; er; h; ms]) (p0, e0, h0, m0).
+      { intros [[[p1 e1] h1] m1] d'. unfold fetch_part, messages_of. unreaders. dsl.
+        destruct (unpack Fi d') as [[p d3]|e]; dsl; [|exists (p1, e1, h1, m1); reflexivity].
+        destruct (unpack Fh d3) as [[er d4]|e]; dsl; [|exists (p1, e1, h1, m1); reflexivity].
+        destruct (unpack Fq d4) as [[h d5]|e]; dsl; [|exists (p1, e1, h1, m1); reflexivity].
+        destruct (read_int_string d5) as [[ms d6]|e]; dsl; [|exists (p1, e1, h1, m1); reflexivity].
+        exists (VInt p, VInt er, VInt h, v_ob ms). destruct ms; reflexivity. }
+      destruct ts' as [[[p' e'] h'] m']. finish_loop.
+      - exists (VText t, VInt np, p', e', h', m'). reflexivity.
+      - exists (t0, np0, p0, e0, h0, m0). reflexivity. }
+    finish_loop; reflexivity. }
+  unfold ast_decode_fetch_response, decode_fetch_response, topics_after_header. unreaders. dsl.
+  destruct (ver =? 0).
+  - dsl. destruct (unpack Fi data) as [[c r1]|e]; dsl; [|reflexivity].
+    destruct (unpack Fi r1) as [[nt r2]|e]; dsl; [|reflexivity].
+    etransitivity; [|exact (Hloops c nt VUnbound r2)]. unfold msgset. dsl.
+    match goal with |- context [sfor_range ?b ?f ?n ?st] => destruct (sfor_range b f n st) as [? ?] end; reflexivity.
+  - destruct (2 <=? ver).
+    + dsl. destruct (unpack Fi data) as [[c r1]|e]; dsl; [|reflexivity].
+      destruct (unpack Fi r1) as [[th r2]|e]; dsl; [|reflexivity].
+      destruct (unpack Fi r2) as [[nt r3]|e]; dsl; [|reflexivity].
+      etransitivity; [|exact (Hloops c nt (VInt th) r3)]. unfold msgset. dsl.
+      match goal with |- context [sfor_range ?b ?f ?n ?st] => destruct (sfor_range b f n st) as [? ?] end; reflexivity.
+    + dsl. reflexivity.
+Qed.
